@@ -34,6 +34,7 @@ class FakeFile(object):
         self.fs, self.name, self.mode = fs, fs.norm(name), mode
         self.buf = ''
         self.closed = False
+        self.pos = 0
         if 'a' in mode or 'w' in mode:
             if self.name not in fs.files or 'w' in mode:
                 fs.files[self.name] = ''
@@ -41,7 +42,7 @@ class FakeFile(object):
     def write(self, s):
         if self.closed:
             raise ValueError('I/O operation on closed file.')
-        self.buf += s
+        self.buf += s.decode('utf-8') if isinstance(s, (bytes, bytearray)) else s
         return len(s)
 
     def flush(self):
@@ -77,15 +78,53 @@ class FakeFile(object):
         return False
 
     def __iter__(self):
-        data = self.fs.files[self.name]
+        data = self.fs.files[self.name][self.pos:]
+        self.pos = len(self.fs.files[self.name])
         lines = data.split('\n')
         out = [ln + '\n' for ln in lines[:-1]]
         if lines[-1] != '':
             out.append(lines[-1])
-        return iter(out)
+        return iter([self._out(x) for x in out])
 
-    def read(self):
-        return self.fs.files[self.name]
+    def _out(self, data):
+        return data.encode('utf-8') if 'b' in self.mode else data
+
+    def read(self, n=-1):
+        data = self.fs.files[self.name][self.pos:]
+        if n is not None and n >= 0:
+            data = data[:n]
+        self.pos += len(data)
+        return self._out(data)
+
+    def readline(self):
+        data = self.fs.files[self.name]
+        j = data.find('\n', self.pos)
+        j = len(data) if j < 0 else j + 1
+        out = data[self.pos:j]
+        self.pos = j
+        return self._out(out)
+
+    def readlines(self):
+        return list(iter(self))
+
+    def seek(self, offset, whence=0):
+        size = len(self.fs.files[self.name])
+        if whence == 0:
+            self.pos = offset
+        elif whence == 1:
+            self.pos += offset
+        else:
+            self.pos = size + offset
+        self.pos = max(0, min(size, self.pos))
+        return self.pos
+
+    def tell(self):
+        return self.pos
+
+    def truncate(self, size=None):
+        size = self.pos if size is None else size
+        self.fs.files[self.name] = self.fs.files[self.name][:size]
+        return size
 
 
 class FakePath(object):
@@ -110,7 +149,17 @@ class FakeOS(object):
         self.path = FakePath(fs)
         self.environ = {'HOME': '/home'}
 
-    def makedirs(self, p):
+    SEEK_SET, SEEK_CUR, SEEK_END = 0, 1, 2
+    sep = '/'
+    linesep = '\n'
+
+    def remove(self, p):
+        self.fs.files.pop(self.fs.norm(p), None)
+
+    def rename(self, a, b):
+        self.fs.files[self.fs.norm(b)] = self.fs.files.pop(self.fs.norm(a))
+
+    def makedirs(self, p, exist_ok=True):
         p = self.fs.norm(p).rstrip('/')
         parts = p.split('/')
         for i in range(1, len(parts) + 1):
